@@ -128,6 +128,21 @@ def combine_search(*fns):
     return search
 
 
+def run_reuse(ctx, extra=None, shards=None):
+    """kind=reuse; when the harness dies (a fatal runtime error under the concurrent subscriptions of an operator whose
+    state became shared) the run is repeated without the concurrent subscriptions, so that the sequential part yields
+    a concrete case; the death itself stays reported"""
+    before = len(ctx.violations)
+    rows = R.run_kind(ctx, 'reuse', extra=extra, shards=shards)
+    if any('harness-failed' in v[0] for v in ctx.violations[before:]):
+        R.GOENV['VERIF_REUSE_SEQ'] = '1'
+        try:
+            rows = R.run_kind(ctx, 'reuse', extra=extra, shards=shards)
+        finally:
+            R.GOENV.pop('VERIF_REUSE_SEQ', None)
+    return rows
+
+
 def table_search(prop, dynamic=None):
     """search function for report_lake_failure: name the changed rows; `dynamic(ctx, rows)` may turn
     them into a concrete failing input (returns True when it reported a violation with a replay)"""
